@@ -322,6 +322,9 @@ def _impl_extend_free(inp):
     step = f(inp["step"])
     start = float(coords[0]) - inp["kl2"] / 2 * step
     stop = float(coords[-1]) + inp["kr2"] / 2 * step
+    if inp.get("argty") == "np":       # the same numbers as numpy scalars
+        import numpy as np
+        start, stop = np.float64(start), np.float64(stop)
     o = _observed(arr, lambda a: ops.extend_dim(a, "time", start=start, stop=stop, fill_value=_cell_float(inp["fill"]),
                                                 left_closed=inp["lc"], right_closed=inp["rc"]), inp.get("layout", "1d"))
     return _free_result(o, coords)
@@ -362,6 +365,9 @@ def _impl_crop_free(inp):
     start = float(coords[inp["i"]]) - (step / 2 if inp["half_l"] else 0.0)
     stop = float(coords[inp["j"]]) + (step / 2 if inp["half_r"] else 0.0)
     start, stop = max(start, float(coords[0])), min(stop, float(coords[-1]))
+    if inp.get("argty") == "np":
+        import numpy as np
+        start, stop = np.float64(start), np.float64(stop)
     o = _observed(arr, lambda a: ops.crop_dim(a, "time", start=start, stop=stop, left_closed=inp["lc"], right_closed=inp["rc"]),
                   inp.get("layout", "1d"))
     if is_err(o):
@@ -810,9 +816,10 @@ def _crop_cases(ctx, n_axes):
             for e in coords:
                 if s <= e:
                     for lc, rc in _FLAGS:
-                        yield {"coords": rats(coords), "data": [("nan" if i % 3 == 1 else i) for i in range(len(coords))],
-                               "step_attr": None, "layout": "1d", "start": rat(s), "stop": rat(e), "lc": lc, "rc": rc,
-                               "eps": None}
+                        for argty in (None, "int", "np"):      # ends as float, as Python int where whole, as numpy scalar
+                            yield {"coords": rats(coords), "data": [("nan" if i % 3 == 1 else i) for i in range(len(coords))],
+                                   "step_attr": None, "layout": "1d", "start": rat(s), "stop": rat(e), "lc": lc, "rc": rc,
+                                   "eps": None, "argty": argty}
     # decimal axes: crop only compares (stop - eps is the one rounded operation, far from every coordinate)
     import numpy as np
     for step in (0.01, 0.1, 1 / 3, 0.004):
@@ -859,6 +866,15 @@ def _extend_cases(ctx, n_axes):
             c = dict(b)
             c.update({"start": rat(s), "stop": rat(e), "fill": 0, "lc": True, "rc": False, "eps": None})
             yield c
+    # half-step axis, every combination of whole / half ends, given as float, Python int or numpy scalar
+    half = [Fraction(0), Fraction(1, 2), Fraction(1)]
+    for s in (Fraction(-1), Fraction(-1, 2), Fraction(0), None):
+        for e in (Fraction(1), Fraction(3, 2), Fraction(2), None):
+            for lc, rc in _FLAGS:
+                for argty in (None, "int", "np"):
+                    yield {"coords": rats(half), "data": [1, "nan", 3], "step_attr": "1/2" if lc else None, "layout": "1d",
+                           "start": None if s is None else rat(s), "stop": None if e is None else rat(e), "fill": -9,
+                           "lc": lc, "rc": rc, "eps": None, "argty": argty}
     # the smallest arrays that hold a NaN / an infinity / the fill value itself
     for data, fill in [([1, "nan", 3], 0), (["nan"], 0), (["inf", "-inf"], 0), ([0, 5, 0], 0), ([7, 7], 7),
                        (["nan", "nan"], "nan"), ([1, 2], "-inf")]:
@@ -971,7 +987,8 @@ def _extend_free_raw(ctx):
         yield {"a0": rat(rng.choice(FREE_STARTS + [rng.uniform(-3, 30)])),
                "step": rat(rng.choice(FREE_STEPS + [rng.uniform(1e-3, 2)])), "n": n, "attr": n < 2 or rng.random() < 0.6,
                "kl2": rng.randint(0, 12), "kr2": rng.randint(0, 12), "lc": rng.random() < 0.5, "rc": rng.random() < 0.5,
-               "fill": fill, "layout": rng.choice(LAYOUTS), "data": _free_cells(rng, n, fill)}
+               "fill": fill, "layout": rng.choice(LAYOUTS), "data": _free_cells(rng, n, fill),
+               "argty": "np" if rng.random() < 0.3 else None}
 
 
 def _crop_free_cases(ctx):
@@ -984,7 +1001,7 @@ def _crop_free_cases(ctx):
         yield {"a0": rat(rng.choice(FREE_STARTS + [-1.7, rng.uniform(-3, 30)])), "step": rat(rng.choice(steps + [rng.uniform(1e-3, 2)])),
                "n": n, "attr": rng.random() < 0.5, "i": i, "j": j, "half_l": rng.random() < 0.5, "half_r": rng.random() < 0.5,
                "lc": rng.random() < 0.5, "rc": rng.random() < 0.5, "layout": rng.choice(LAYOUTS),
-               "data": _free_cells(rng, n, 0)}
+               "data": _free_cells(rng, n, 0), "argty": "np" if rng.random() < 0.3 else None}
 
 
 QUICK_LENGTHS = [1, 2, 3, 4, 5, 7, 8, 12, 16, 25, 40]
